@@ -70,7 +70,11 @@ def enospc_class(cfg, errs, msg):
         if re.match(r'^Block bitmap differences:( +-(\(\d+--\d+\)|\d+))+$', part): kinds.add('leak'); continue
         m = re.match(r'^Inode \d+, i_size is (\d+), should be (\d+)\.\s+Fix\? no$', part)
         if m and init_fail and int(m.group(1)) < int(m.group(2)): kinds.add('past-eof'); continue
-        if part == 'Fix? no' or re.match(r'^Free blocks count wrong', part): continue
+        m = re.match(r'^Inode \d+, end of extent exceeds allowed value$', part)
+        if m and init_fail: kinds.add('past-eof'); continue
+        m = re.match(r'^\(logical block (\d+), physical block \d+, len \d+\)$', part)
+        if m and init_fail and any(int(f.split(':')[3]) <= int(m.group(1)) < int(f.split(':')[3]) + int(f.split(':')[4]) for f in fails if int(f.split(':')[2]) & 10): continue
+        if part in ('Fix? no', 'Clear? no') or re.match(r'^Free blocks count wrong', part): continue
         return None
     return 'fallocate-enospc-' + '+'.join(sorted(kinds)) if kinds else None
 
